@@ -96,7 +96,8 @@ class StmtMixin:
 
     def store_sub(self, base, key, val, st, fx, node, tnode):
         if isinstance(base, tuple) and base[0] == "reg":
-            self.emit(st, fx, "REG", node, reg=base[1], key=key, val=val, addr=base[2], how="setitem")
+            self.emit(st, fx, "REG", node, reg=base[1], key=key, val=val, addr=base[2], how="setitem",
+                      valkey=st.heap.get((val, self.elem_key_field), ("attr", val, self.elem_key_field)))
             st.hits.add((base[1], key))
             self._drop_reg_facts(st, base[1])
         elif isinstance(base, tuple) and base[0] == "regtop":
